@@ -186,7 +186,7 @@ def check_method(run, F, helpers, fn, rule="T1"):
             problems.append("a path ends in %s" % p.status)
             continue
         cx = tbl.SerCx(helpers, p, fn)
-        evs = tbl.residual_calls(p)
+        evs = tbl.residual_calls(p, views=False)
         cells = cells0
         if fn.name == "serialize_char" and evs and evs[0]["key"].endswith("<impl char>::encode_utf8") and not any(e["key"] == tbl.SERIALIZE for e in evs) \
                 and norm(evs[0]["args"][0]) == P(fn, 2):
